@@ -19,7 +19,7 @@ variable {s : KS} {a : A} {q : QEntry ℚ} {rest : List (QEntry ℚ)}
 theorem wireServe_eq (t0 : ℚ) (nl nd : Nat) (id : Int) :
     wireServe cfg losses delays t0 nl nd id =
       loadTime (cPkt id) fun ct =>
-      if isLost cfg (draw losses nl) then wireLoop (Num.pymax t0 ct) (nlNext cfg nl) nd
+      if isLost cfg (draw losses nl) then wireLost (Num.pymax t0 ct) id (nlNext cfg nl) nd
       else if Num.pymax t0 ct - ct < draw delays nd then
         .call (.timeout (draw delays nd - (Num.pymax t0 ct - ct)) .none) fun rp => match rp with
           | .ev t => .yield t (.wTx id (Num.pymax t0 ct + (draw delays nd - (Num.pymax t0 ct - ct))) (nlNext cfg nl) (nd + 1))
@@ -41,7 +41,7 @@ theorem kstep_wireInit (fuel : Nat) (hk : KInv s a) (hwire : a.wire = .init q) (
     (hp : popMin s.agenda = some (q, rest)) (hrest : rest.Perm (a.src.entries ++ a.pend.toList)) :
     ∃ s', step (body cfg losses delays) (fuel + 1) s = .ok s' ∧
       KInv s' { a with wire := .W s.events.size q.time 0 0 } ∧
-      s'.now = q.time ∧ outsOf s'.trace = outsOf s.trace := by
+      s'.now = q.time ∧ outsOf s'.trace = outsOf s.trace ∧ leftsOf s'.trace = leftsOf s.trace := by
   have hpk := hk.wire
   rw [hwire] at hpk
   obtain ⟨hqe, ⟨hkind, hcbs, hout⟩, hproc⟩ := hpk
@@ -59,7 +59,7 @@ theorem kstep_wireInit (fuel : Nat) (hk : KInv s a) (hwire : a.wire = .init q) (
   wsimp [hqe, hgs, hkind, hcbs, hout, hres, hrsz, Nat.ne_of_lt hgs, WPhase.getQ]
   have hfr : ∀ x < s.events.size, (∀ c, (s.ev x).cbs = some c → c ∉ [[Cb.resume 0]]) → x ≠ 1 := by
     intro x _ hc; rintro rfl; exact hc _ hcbs0 (by simp)
-  refine ⟨⟨?_, ?_, ?_, ?_, ?_, ?_, ?_, ?_, ?_⟩, ?_⟩
+  refine ⟨⟨?_, ?_, ?_, ?_, ?_, ?_, ?_, ?_, ?_⟩, ?_, ?_⟩
   · exact wf_same hwf.1 rfl rfl rfl
   · exact hrest
   · wsimp [hrsz]
@@ -75,13 +75,14 @@ theorem kstep_wireInit (fuel : Nat) (hk : KInv s a) (hwire : a.wire = .init q) (
   · intro k hk'
     wsimp [hct k hk']
   · simp [outsOf_push]
+  · simp [leftsOf_push]
 
 /-- the `StoreGet` event of the wire: the packet is lost (dropped at once); the store is empty, the server blocks in `get` -/
 theorem kstep_serveLostIdle (fuel : Nat) {g : EvId} {id : Int} {t0 : ℚ} {nl nd : Nat} (hk : KInv s a) (hwire : a.wire = .H g id q t0 nl nd) (hid : id.toNat < a.cts.length) (hnow : max t0 (a.ctOf id) = q.time) (hl : isLost cfg (draw losses nl) = true) (hit : a.items = [])
     (hp : popMin s.agenda = some (q, rest)) (hrest : rest.Perm (a.src.entries ++ a.pend.toList)) :
     ∃ s', step (body cfg losses delays) (fuel + 1) s = .ok s' ∧
       KInv s' { a with wire := .W s.events.size (q.time) (nlNext cfg nl) nd } ∧
-      s'.now = q.time ∧ outsOf s'.trace = outsOf s.trace := by
+      s'.now = q.time ∧ outsOf s'.trace = outsOf s.trace ∧ leftsOf s'.trace = leftsOf s.trace ++ [id] := by
   have hpk := hk.wire
   rw [hwire] at hpk
   obtain ⟨hqe, ⟨hkind, hcbs, hout⟩, hproc⟩ := hpk
@@ -101,7 +102,7 @@ theorem kstep_serveLostIdle (fuel : Nat) {g : EvId} {id : Int} {t0 : ℚ} {nl nd
   wsimp [hqe, hgs, hkind, hcbs, hout, hres, hrsz, Nat.ne_of_lt hgs, WPhase.getQ, hcell, hl, Num.pymax_eq, hnow]
   have hfr : ∀ x < s.events.size, (∀ c, (s.ev x).cbs = some c → c ∉ [[Cb.trigPut 0, Cb.resume 0]]) → x ≠ g := by
     intro x _ hc; rintro rfl; exact hc _ hcbs0 (by simp)
-  refine ⟨⟨?_, ?_, ?_, ?_, ?_, ?_, ?_, ?_, ?_⟩, ?_⟩
+  refine ⟨⟨?_, ?_, ?_, ?_, ?_, ?_, ?_, ?_, ?_⟩, ?_, ?_⟩
   · exact wf_same hwf.1 rfl rfl rfl
   · exact hrest
   · wsimp [hrsz]
@@ -117,13 +118,14 @@ theorem kstep_serveLostIdle (fuel : Nat) {g : EvId} {id : Int} {t0 : ℚ} {nl nd
   · intro k hk'
     wsimp [hct k hk']
   · simp [outsOf_push]
+  · simp [leftsOf_push]
 
 /-- the `StoreGet` event of the wire: the packet is lost (dropped at once) and the next packet is taken from the store -/
 theorem kstep_serveLostNext (fuel : Nat) {g : EvId} {id : Int} {t0 : ℚ} {nl nd : Nat} {i : Int} {is : List Int} (hk : KInv s a) (hwire : a.wire = .H g id q t0 nl nd) (hid : id.toNat < a.cts.length) (hnow : max t0 (a.ctOf id) = q.time) (hl : isLost cfg (draw losses nl) = true) (hit : a.items = i :: is)
     (hp : popMin s.agenda = some (q, rest)) (hrest : rest.Perm (a.src.entries ++ a.pend.toList)) :
     ∃ s', step (body cfg losses delays) (fuel + 1) s = .ok s' ∧
       KInv s' { a with wire := .H s.events.size i ⟨q.time, NORMAL, s.eid, s.events.size⟩ (q.time) (nlNext cfg nl) nd, items := is } ∧
-      s'.now = q.time ∧ outsOf s'.trace = outsOf s.trace := by
+      s'.now = q.time ∧ outsOf s'.trace = outsOf s.trace ∧ leftsOf s'.trace = leftsOf s.trace ++ [id] := by
   have hpk := hk.wire
   rw [hwire] at hpk
   obtain ⟨hqe, ⟨hkind, hcbs, hout⟩, hproc⟩ := hpk
@@ -143,7 +145,7 @@ theorem kstep_serveLostNext (fuel : Nat) {g : EvId} {id : Int} {t0 : ℚ} {nl nd
   wsimp [hqe, hgs, hkind, hcbs, hout, hres, hrsz, Nat.ne_of_lt hgs, WPhase.getQ, hcell, hl, Num.pymax_eq, hnow]
   have hfr : ∀ x < s.events.size, (∀ c, (s.ev x).cbs = some c → c ∉ [[Cb.trigPut 0, Cb.resume 0]]) → x ≠ g := by
     intro x _ hc; rintro rfl; exact hc _ hcbs0 (by simp)
-  refine ⟨⟨?_, ?_, ?_, ?_, ?_, ?_, ?_, ?_, ?_⟩, ?_⟩
+  refine ⟨⟨?_, ?_, ?_, ?_, ?_, ?_, ?_, ?_, ?_⟩, ?_, ?_⟩
   · exact wf_push1 hwf.1 _ rfl rfl rfl rfl (le_refl _)
   · exact List.Perm.cons _ hrest
   · wsimp [hrsz]
@@ -159,13 +161,14 @@ theorem kstep_serveLostNext (fuel : Nat) {g : EvId} {id : Int} {t0 : ℚ} {nl nd
   · intro k hk'
     wsimp [hct k hk']
   · simp [outsOf_push]
+  · simp [leftsOf_push]
 
 /-- the `StoreGet` event of the wire: the packet is not lost and has not been queued for its whole delay: the server sleeps the rest -/
 theorem kstep_serveWait (fuel : Nat) {g : EvId} {id : Int} {t0 : ℚ} {nl nd : Nat} (hk : KInv s a) (hwire : a.wire = .H g id q t0 nl nd) (hid : id.toNat < a.cts.length) (hnow : max t0 (a.ctOf id) = q.time) (hl : isLost cfg (draw losses nl) = false) (hw : q.time - a.ctOf id < draw delays nd)
     (hp : popMin s.agenda = some (q, rest)) (hrest : rest.Perm (a.src.entries ++ a.pend.toList)) :
     ∃ s', step (body cfg losses delays) (fuel + 1) s = .ok s' ∧
       KInv s' { a with wire := .T s.events.size id ⟨q.time + (draw delays nd - (q.time - a.ctOf id)), NORMAL, s.eid, s.events.size⟩ (nlNext cfg nl) (nd + 1) } ∧
-      s'.now = q.time ∧ outsOf s'.trace = outsOf s.trace := by
+      s'.now = q.time ∧ outsOf s'.trace = outsOf s.trace ∧ leftsOf s'.trace = leftsOf s.trace := by
   have hpk := hk.wire
   rw [hwire] at hpk
   obtain ⟨hqe, ⟨hkind, hcbs, hout⟩, hproc⟩ := hpk
@@ -186,7 +189,7 @@ theorem kstep_serveWait (fuel : Nat) {g : EvId} {id : Int} {t0 : ℚ} {nl nd : N
   wsimp [hqe, hgs, hkind, hcbs, hout, hres, hrsz, Nat.ne_of_lt hgs, WPhase.getQ, hcell, hl, Num.pymax_eq, hnow, hw, hd]
   have hfr : ∀ x < s.events.size, (∀ c, (s.ev x).cbs = some c → c ∉ [[Cb.trigPut 0, Cb.resume 0]]) → x ≠ g := by
     intro x _ hc; rintro rfl; exact hc _ hcbs0 (by simp)
-  refine ⟨⟨?_, ?_, ?_, ?_, ?_, ?_, ?_, ?_, ?_⟩, ?_⟩
+  refine ⟨⟨?_, ?_, ?_, ?_, ?_, ?_, ?_, ?_, ?_⟩, ?_, ?_⟩
   · exact wf_push1 hwf.1 _ rfl rfl rfl rfl (by show q.time ≤ q.time + _; linarith)
   · exact List.Perm.cons _ hrest
   · wsimp [hrsz]
@@ -202,13 +205,14 @@ theorem kstep_serveWait (fuel : Nat) {g : EvId} {id : Int} {t0 : ℚ} {nl nd : N
   · intro k hk'
     wsimp [hct k hk']
   · simp [outsOf_push]
+  · simp [leftsOf_push]
 
 /-- the `StoreGet` event of the wire: the packet is not lost and has been queued for at least its delay: it is forwarded at once; the store is empty -/
 theorem kstep_serveOutIdle (fuel : Nat) {g : EvId} {id : Int} {t0 : ℚ} {nl nd : Nat} (hk : KInv s a) (hwire : a.wire = .H g id q t0 nl nd) (hid : id.toNat < a.cts.length) (hnow : max t0 (a.ctOf id) = q.time) (hl : isLost cfg (draw losses nl) = false) (hw : ¬ q.time - a.ctOf id < draw delays nd) (hit : a.items = [])
     (hp : popMin s.agenda = some (q, rest)) (hrest : rest.Perm (a.src.entries ++ a.pend.toList)) :
     ∃ s', step (body cfg losses delays) (fuel + 1) s = .ok s' ∧
       KInv s' { a with wire := .W s.events.size (q.time) (nlNext cfg nl) (nd + 1) } ∧
-      s'.now = q.time ∧ outsOf s'.trace = outsOf s.trace ++ [(id, q.time)] := by
+      s'.now = q.time ∧ outsOf s'.trace = outsOf s.trace ++ [(id, q.time)] ∧ leftsOf s'.trace = leftsOf s.trace ++ [id] := by
   have hpk := hk.wire
   rw [hwire] at hpk
   obtain ⟨hqe, ⟨hkind, hcbs, hout⟩, hproc⟩ := hpk
@@ -228,7 +232,7 @@ theorem kstep_serveOutIdle (fuel : Nat) {g : EvId} {id : Int} {t0 : ℚ} {nl nd 
   wsimp [hqe, hgs, hkind, hcbs, hout, hres, hrsz, Nat.ne_of_lt hgs, WPhase.getQ, hcell, hl, Num.pymax_eq, hnow, hw]
   have hfr : ∀ x < s.events.size, (∀ c, (s.ev x).cbs = some c → c ∉ [[Cb.trigPut 0, Cb.resume 0]]) → x ≠ g := by
     intro x _ hc; rintro rfl; exact hc _ hcbs0 (by simp)
-  refine ⟨⟨?_, ?_, ?_, ?_, ?_, ?_, ?_, ?_, ?_⟩, ?_⟩
+  refine ⟨⟨?_, ?_, ?_, ?_, ?_, ?_, ?_, ?_, ?_⟩, ?_, ?_⟩
   · exact wf_same hwf.1 rfl rfl rfl
   · exact hrest
   · wsimp [hrsz]
@@ -244,13 +248,14 @@ theorem kstep_serveOutIdle (fuel : Nat) {g : EvId} {id : Int} {t0 : ℚ} {nl nd 
   · intro k hk'
     wsimp [hct k hk']
   · simp [outsOf_push]
+  · simp [leftsOf_push]
 
 /-- the `StoreGet` event of the wire: the packet is forwarded at once and the next packet is taken from the store -/
 theorem kstep_serveOutNext (fuel : Nat) {g : EvId} {id : Int} {t0 : ℚ} {nl nd : Nat} {i : Int} {is : List Int} (hk : KInv s a) (hwire : a.wire = .H g id q t0 nl nd) (hid : id.toNat < a.cts.length) (hnow : max t0 (a.ctOf id) = q.time) (hl : isLost cfg (draw losses nl) = false) (hw : ¬ q.time - a.ctOf id < draw delays nd) (hit : a.items = i :: is)
     (hp : popMin s.agenda = some (q, rest)) (hrest : rest.Perm (a.src.entries ++ a.pend.toList)) :
     ∃ s', step (body cfg losses delays) (fuel + 1) s = .ok s' ∧
       KInv s' { a with wire := .H s.events.size i ⟨q.time, NORMAL, s.eid, s.events.size⟩ (q.time) (nlNext cfg nl) (nd + 1), items := is } ∧
-      s'.now = q.time ∧ outsOf s'.trace = outsOf s.trace ++ [(id, q.time)] := by
+      s'.now = q.time ∧ outsOf s'.trace = outsOf s.trace ++ [(id, q.time)] ∧ leftsOf s'.trace = leftsOf s.trace ++ [id] := by
   have hpk := hk.wire
   rw [hwire] at hpk
   obtain ⟨hqe, ⟨hkind, hcbs, hout⟩, hproc⟩ := hpk
@@ -270,7 +275,7 @@ theorem kstep_serveOutNext (fuel : Nat) {g : EvId} {id : Int} {t0 : ℚ} {nl nd 
   wsimp [hqe, hgs, hkind, hcbs, hout, hres, hrsz, Nat.ne_of_lt hgs, WPhase.getQ, hcell, hl, Num.pymax_eq, hnow, hw]
   have hfr : ∀ x < s.events.size, (∀ c, (s.ev x).cbs = some c → c ∉ [[Cb.trigPut 0, Cb.resume 0]]) → x ≠ g := by
     intro x _ hc; rintro rfl; exact hc _ hcbs0 (by simp)
-  refine ⟨⟨?_, ?_, ?_, ?_, ?_, ?_, ?_, ?_, ?_⟩, ?_⟩
+  refine ⟨⟨?_, ?_, ?_, ?_, ?_, ?_, ?_, ?_, ?_⟩, ?_, ?_⟩
   · exact wf_push1 hwf.1 _ rfl rfl rfl rfl (le_refl _)
   · exact List.Perm.cons _ hrest
   · wsimp [hrsz]
@@ -286,13 +291,14 @@ theorem kstep_serveOutNext (fuel : Nat) {g : EvId} {id : Int} {t0 : ℚ} {nl nd 
   · intro k hk'
     wsimp [hct k hk']
   · simp [outsOf_push]
+  · simp [leftsOf_push]
 
 /-- the wire's timeout fires and the store is empty: `out.put(packet)`, then the server blocks in `get` -/
 theorem kstep_fireIdle (fuel : Nat) {t : EvId} {id : Int} {nl nd : Nat} (hk : KInv s a) (hwire : a.wire = .T t id q nl nd) (hit : a.items = [])
     (hp : popMin s.agenda = some (q, rest)) (hrest : rest.Perm (a.src.entries ++ a.pend.toList)) :
     ∃ s', step (body cfg losses delays) (fuel + 1) s = .ok s' ∧
       KInv s' { a with wire := .W s.events.size q.time nl nd } ∧
-      s'.now = q.time ∧ outsOf s'.trace = outsOf s.trace ++ [(id, q.time)] := by
+      s'.now = q.time ∧ outsOf s'.trace = outsOf s.trace ++ [(id, q.time)] ∧ leftsOf s'.trace = leftsOf s.trace ++ [id] := by
   have hpk := hk.wire
   rw [hwire] at hpk
   obtain ⟨hqe, ⟨hkind, hcbs, hout⟩, hproc⟩ := hpk
@@ -310,7 +316,7 @@ theorem kstep_fireIdle (fuel : Nat) {t : EvId} {id : Int} {nl nd : Nat} (hk : KI
   wsimp [hqe, hgs, hkind, hcbs, hout, hres, hrsz, Nat.ne_of_lt hgs, WPhase.getQ]
   have hfr : ∀ x < s.events.size, (∀ c, (s.ev x).cbs = some c → c ∉ [[Cb.resume 0]]) → x ≠ t := by
     intro x _ hc; rintro rfl; exact hc _ hcbs0 (by simp)
-  refine ⟨⟨?_, ?_, ?_, ?_, ?_, ?_, ?_, ?_, ?_⟩, ?_⟩
+  refine ⟨⟨?_, ?_, ?_, ?_, ?_, ?_, ?_, ?_, ?_⟩, ?_, ?_⟩
   · exact wf_same hwf.1 rfl rfl rfl
   · exact hrest
   · wsimp [hrsz]
@@ -326,13 +332,14 @@ theorem kstep_fireIdle (fuel : Nat) {t : EvId} {id : Int} {nl nd : Nat} (hk : KI
   · intro k hk'
     wsimp [hct k hk']
   · simp [outsOf_push]
+  · simp [leftsOf_push]
 
 /-- the wire's timeout fires and a packet waits: `out.put(packet)`, then `store.get()` is served at once -/
 theorem kstep_fireNext (fuel : Nat) {t : EvId} {id : Int} {nl nd : Nat} {i : Int} {is : List Int} (hk : KInv s a) (hwire : a.wire = .T t id q nl nd) (hit : a.items = i :: is)
     (hp : popMin s.agenda = some (q, rest)) (hrest : rest.Perm (a.src.entries ++ a.pend.toList)) :
     ∃ s', step (body cfg losses delays) (fuel + 1) s = .ok s' ∧
       KInv s' { a with wire := .H s.events.size i ⟨q.time, NORMAL, s.eid, s.events.size⟩ q.time nl nd, items := is } ∧
-      s'.now = q.time ∧ outsOf s'.trace = outsOf s.trace ++ [(id, q.time)] := by
+      s'.now = q.time ∧ outsOf s'.trace = outsOf s.trace ++ [(id, q.time)] ∧ leftsOf s'.trace = leftsOf s.trace ++ [id] := by
   have hpk := hk.wire
   rw [hwire] at hpk
   obtain ⟨hqe, ⟨hkind, hcbs, hout⟩, hproc⟩ := hpk
@@ -350,7 +357,7 @@ theorem kstep_fireNext (fuel : Nat) {t : EvId} {id : Int} {nl nd : Nat} {i : Int
   wsimp [hqe, hgs, hkind, hcbs, hout, hres, hrsz, Nat.ne_of_lt hgs, WPhase.getQ]
   have hfr : ∀ x < s.events.size, (∀ c, (s.ev x).cbs = some c → c ∉ [[Cb.resume 0]]) → x ≠ t := by
     intro x _ hc; rintro rfl; exact hc _ hcbs0 (by simp)
-  refine ⟨⟨?_, ?_, ?_, ?_, ?_, ?_, ?_, ?_, ?_⟩, ?_⟩
+  refine ⟨⟨?_, ?_, ?_, ?_, ?_, ?_, ?_, ?_, ?_⟩, ?_, ?_⟩
   · exact wf_push1 hwf.1 _ rfl rfl rfl rfl (le_refl _)
   · exact List.Perm.cons _ hrest
   · wsimp [hrsz]
@@ -366,5 +373,6 @@ theorem kstep_fireNext (fuel : Nat) {t : EvId} {id : Int} {nl nd : Nat} {i : Int
   · intro k hk'
     wsimp [hct k hk']
   · simp [outsOf_push]
+  · simp [leftsOf_push]
 
 end WireK
